@@ -222,8 +222,11 @@ func runC15(env *Env, rc *RunCtx) {
 	}
 	// (c) storage failure at every k
 	for _, k := range pos(N) {
-		for ki, kind := range []FaultKind{FaultTransient, FaultPersistent} {
+		for ki, kind := range []FaultKind{FaultTransient, FaultPersistent, FaultConflict} {
 			e := 1000 + (k-1)*2 + ki
+			if ki >= 2 { // numbering of the first two kinds is kept for earlier replay files
+				e = 2_000_000 + k
+			}
 			if rc.SkipExec(e) {
 				continue
 			}
